@@ -265,6 +265,46 @@ func init() {
 		et := fn.Signature.Results().At(0).Type().Underlying().(*types.Slice).Elem()
 		return sliceV{abs: &absSlice{length: ln, capa: ln, elemT: et}}, false
 	}
+	V["verifIteString"] = func(ex *Exec, th *Thread, fn *ssa.Function, a []Value) (Value, bool) {
+		c := a[0].(*Term)
+		if c.IsConst() {
+			if c.c == 1 {
+				return a[1], false
+			}
+			return a[2], false
+		}
+		return strV{ite: &strIte{c: c, a: cstr(a[1]), b: cstr(a[2])}}, false
+	}
+	V["verifFuncName"] = func(ex *Exec, th *Thread, fn *ssa.Function, a []Value) (Value, bool) {
+		iv, _ := a[0].(ifaceV)
+		cl, ok := iv.v.(*closure)
+		if !ok || cl == nil {
+			return strV{}, false
+		}
+		if cl.fn != nil {
+			return strV{s: cl.fn.String()}, false
+		}
+		return strV{s: "opaque:" + cl.intr}, false
+	}
+	V["verifMethodsOf"] = func(ex *Exec, th *Thread, fn *ssa.Function, a []Value) (Value, bool) {
+		iv := a[0].(ifaceV)
+		pt, ok := iv.t.(*types.Pointer)
+		if !ok {
+			panic(unsupported("verifMethodsOf wants a nil pointer to an interface type"))
+		}
+		it, ok := pt.Elem().Underlying().(*types.Interface)
+		if !ok {
+			panic(unsupported("verifMethodsOf wants a nil pointer to an interface type"))
+		}
+		var arr []Value
+		for i := 0; i < it.NumMethods(); i++ {
+			m := it.Method(i)
+			if m.Exported() {
+				arr = append(arr, strV{s: m.Name()})
+			}
+		}
+		return sliceV{arr: arr}, false
+	}
 	V["verifSameObject"] = func(ex *Exec, th *Thread, fn *ssa.Function, a []Value) (Value, bool) {
 		x, y := a[0].(ifaceV), a[1].(ifaceV)
 		px, ok1 := x.v.(Ptr)
